@@ -86,20 +86,6 @@ Proof.
       * inversion Hl; subst; discriminate.
 Qed.
 
-(* without a filter (no query, or a query without "=") the WKC resource returns the listing plus the optional impl-info link *)
-Lemma wkc_no_filter : forall ls impl, wkc_render_get ls impl None = Ok (ls ++ impl_info_links impl).
-Proof. reflexivity. Qed.
-Lemma wkc_no_equals : forall ls impl q, split_eq q = None -> wkc_render_get ls impl (Some q) = Ok (ls ++ impl_info_links impl).
-Proof. intros ls impl q H. unfold wkc_render_get. rewrite H. reflexivity. Qed.
-Lemma wkc_filter_is_filter_links : forall ls impl q k v, split_eq q = Some (k, v) ->
-  wkc_render_get ls impl (Some q) = Ok (filter_links k v (ls ++ impl_info_links impl)).
-Proof. intros ls impl q k v H. unfold wkc_render_get. rewrite H. reflexivity. Qed.
-(* the WKC resource never fails, whatever the (single) query *)
-Lemma wkc_total : forall ls impl q, exists r, wkc_render_get ls impl q = Ok r.
-Proof.
-  intros ls impl [q|]; unfold wkc_render_get; [|eauto]. destruct (split_eq q) as [[k v]|]; eauto.
-Qed.
-
 (* ------------------------------------------------------------------ RFC 6690 section 4.1 as a declarative specification *)
 (* the search pattern v accepts the string x: equality, or prefix when v ends in "*" *)
 Definition pat_ok (v x : string) : Prop :=
@@ -153,3 +139,89 @@ Proof. intros k v ls l. unfold filter_links. rewrite filter_In, link_matches_spe
 Lemma filter_links_sublist : forall k v ls, exists keep : link -> bool,
   filter_links k v ls = filter keep ls /\ forall l, keep l = true <-> Matches k v l.
 Proof. intros k v ls. exists (link_matches k v). split; [reflexivity | apply link_matches_spec]. Qed.
+
+(* ------------------------------------------------------------------ WKCResource.render_get with its list of Uri-Query options *)
+Lemma eval_kind_own : forall k v l, eval_kind (kind_of k) k v l = Ok (link_matches k v l).
+Proof.
+  intros k v l. unfold kind_of, link_matches, eval_kind. destruct (mem_str k LIST_VALUED_ATTRS); [reflexivity|].
+  destruct (String.eqb k "href") eqn:E; [|reflexivity].
+  unfold link_getattr. rewrite E. reflexivity.
+Qed.
+Lemma all_kinds_same : forall kds kd k v l b, kds <> [] -> Forall (fun x => x = kd) kds -> eval_kind kd k v l = Ok b -> all_kinds kds k v l = Ok b.
+Proof.
+  induction kds as [|x kds IH]; intros kd k v l b Hne HF He; [congruence|].
+  inversion HF as [|? ? Hx HF']; subst. cbn [all_kinds]. rewrite He. cbn [bind]. destruct b; [|reflexivity].
+  destruct kds as [|y kds']; [reflexivity|]. apply (IH kd k v l true); [discriminate | exact HF' | exact He].
+Qed.
+Lemma filter_m_pure : forall (f : link -> M bool) (g : link -> bool) ls, (forall l, f l = Ok (g l)) -> filter_m f ls = Ok (filter g ls).
+Proof.
+  intros f g ls H. induction ls as [|l ls IH]; [reflexivity|]. cbn [filter_m filter]. rewrite H, IH. cbn [bind]. destruct (g l); reflexivity.
+Qed.
+
+(* no relevant query (none at all, or only queries without "="): the listing plus the optional impl-info link *)
+Lemma wkc_no_filter : forall ls impl, wkc_render_get ls impl [] = Ok (ls ++ impl_info_links impl).
+Proof. reflexivity. Qed.
+Lemma wkc_no_relevant : forall ls impl qs, relevant qs = [] -> wkc_render_get ls impl qs = Ok (ls ++ impl_info_links impl).
+Proof. intros ls impl qs H. unfold wkc_render_get. rewrite H. reflexivity. Qed.
+(* exactly one relevant query: the single-filter semantics *)
+Lemma wkc_single : forall ls impl qs k v, relevant qs = [(k, v)] ->
+  wkc_render_get ls impl qs = Ok (filter_links k v (ls ++ impl_info_links impl)).
+Proof.
+  intros ls impl qs k v H. unfold wkc_render_get. rewrite H. cbn [rev app map fst]. unfold filter_links.
+  apply filter_m_pure. intro l. cbn [all_kinds]. rewrite eval_kind_own. cbn [bind]. destruct (link_matches k v l); reflexivity.
+Qed.
+(* several relevant queries whose names select the same branch of the code (e.g. ?rt=..&if=.., or ?sz=..&title=..):
+   every collected filter evaluates the LAST criterion — the earlier criteria are lost (late-bound closure variables) *)
+Lemma wkc_several_same_kind_is_last : forall ls impl qs rel k v, relevant qs = rel ++ [(k, v)] ->
+  Forall (fun kv : string * string => kind_of (fst kv) = kind_of k) rel ->
+  wkc_render_get ls impl qs = Ok (filter_links k v (ls ++ impl_info_links impl)).
+Proof.
+  intros ls impl qs rel k v H HF. unfold wkc_render_get. rewrite H, rev_app_distr. cbn [rev app]. unfold filter_links.
+  apply filter_m_pure. intro l. apply (all_kinds_same _ (kind_of k)).
+  - rewrite map_app. cbn [map fst]. rewrite rev_app_distr. discriminate.
+  - apply Forall_rev. rewrite map_app. apply Forall_app. split; [|repeat constructor].
+    apply Forall_forall. intros x Hx. apply in_map_iff in Hx. destruct Hx as [kv [E Hin]]. subst x.
+    apply (proj1 (Forall_forall _ _) HF kv Hin).
+  - apply eval_kind_own.
+Qed.
+(* the statement the code intends — conjunction of all criteria — holds when at most one query is a filter *)
+Lemma wkc_conjunction_at_most_one : forall ls impl qs r, (List.length (relevant qs) <= 1)%nat -> wkc_render_get ls impl qs = Ok r ->
+  forall l, In l r <-> In l (ls ++ impl_info_links impl) /\ forall k v, In (k, v) (relevant qs) -> Matches k v l.
+Proof.
+  intros ls impl qs r Hlen H l. destruct (relevant qs) as [|[k v] [|kv2 rest]] eqn:E; [| |simpl in Hlen; lia].
+  - rewrite (wkc_no_relevant _ _ _ E) in H. inversion H; subst. split; [intro Hin; split; [exact Hin | intros k v []] | intros [Hin _]; exact Hin].
+  - rewrite (wkc_single _ _ _ _ _ E) in H. inversion H; subst. rewrite filter_links_spec. split.
+    + intros [Hin Hm]. split; [exact Hin|]. intros k' v' [Ekv|[]]. inversion Ekv; subst. exact Hm.
+    + intros [Hin Hm]. split; [exact Hin | apply Hm; left; reflexivity].
+Qed.
+Lemma wkc_total_at_most_one : forall ls impl qs, (List.length (relevant qs) <= 1)%nat -> exists r, wkc_render_get ls impl qs = Ok r.
+Proof.
+  intros ls impl qs Hlen. destruct (relevant qs) as [|[k v] [|kv2 rest]] eqn:E; [| |simpl in Hlen; lia].
+  - rewrite (wkc_no_relevant _ _ _ E). eauto.
+  - rewrite (wkc_single _ _ _ _ _ E). eauto.
+Qed.
+Lemma relevant_in : forall qs k v, In (k, v) (relevant qs) <-> exists q, In q qs /\ split_eq q = Some (k, v).
+Proof.
+  induction qs as [|q qs IH]; intros k v; cbn [relevant].
+  - split; [intros [] | intros [q [[] _]]].
+  - destruct (split_eq q) as [[k0 v0]|] eqn:E.
+    + cbn [In]. rewrite IH. split.
+      * intros [H | [q' [H1 H2]]]; [inversion H; subst; exists q; auto | exists q'; auto].
+      * intros [q' [[H1 | H1] H2]]; [subst; left; congruence | right; exists q'; auto].
+    + rewrite IH. split.
+      * intros [q' [H1 H2]]. exists q'. cbn [In]. auto.
+      * intros [q' [[H1 | H1] H2]]; [subst; congruence | exists q'; auto].
+Qed.
+
+(* ------------------------------------------------------------------ at request level: a request routed to the WKC resource answers the (filtered) listing of the root *)
+Lemma request_wkc : forall pipe root m qs impl ls, uri_path_abbrev m = None ->
+  Route root (uri_path m) (TgtRes (RWkc impl)) -> get_resources_as_linkheader root = Some ls ->
+  request pipe root m qs = links_result (wkc_render_get ls impl qs).
+Proof.
+  intros pipe root m qs impl ls Hab HR Hls. apply (render_route root pipe m Hab) in HR. unfold request.
+  destruct (render pipe root m) as [r m' | id m' | e]; cbn [leaf_target] in HR; inversion HR; subst. rewrite Hls. reflexivity.
+Qed.
+Lemma request_wkc_single : forall pipe root m qs impl ls k v, uri_path_abbrev m = None ->
+  Route root (uri_path m) (TgtRes (RWkc impl)) -> get_resources_as_linkheader root = Some ls -> relevant qs = [(k, v)] ->
+  request pipe root m qs = links_result (Ok (filter_links k v (ls ++ impl_info_links impl))).
+Proof. intros. rewrite (request_wkc pipe root m qs impl ls) by assumption. rewrite (wkc_single ls impl qs k v) by assumption. reflexivity. Qed.
